@@ -24,12 +24,35 @@ def comprehension(interp, xs, gens, i, child, emit):
     raise Unsupported('comprehension over symbolic-length sequence must be a plain list comprehension')
 
 
+def copy(xs, mutable=True):
+    """`list(xs)` / a snapshot of xs: same elements (the very same element objects), own identity.
+    A *mutable* copy is a cell: append / extend / insert replace its contents in place (see `method`)."""
+    c = SList(xs.length, xs.elem, xs.uid)
+    c.cache = xs.cache
+    c.parts = list(xs.parts) if xs.parts is not None else [('base', xs)]
+    c.immutable = not mutable
+    return c
+
+
+def frozen(v):
+    """operands captured by a derived sequence must not change afterwards: snapshot mutable ones"""
+    if isinstance(v, SList) and not v.immutable:
+        return copy(v, mutable=False)
+    return v
+
+
+def _replace_contents(xs, new):
+    xs.length, xs.elem, xs.uid, xs.cache, xs.parts = new.length, new.elem, new.uid, new.cache, new.parts
+    xs.aux = {}        # measures (pyvc.texts) described the old contents; joins are recomposed from `parts`
+
+
 def as_slist(interp, src):
     """SList view of a symbolic iterable: SList itself, the rest of an SIter (which is consumed), or an
     enumerate() of one of these."""
     if isinstance(src, SList):
         return src
     if isinstance(src, models.SIter):
+        # (an eager generator-by-contract is consumed completely here: fine)
         rest = slice_(interp, src.xs, slice(src.pos, None, None)) if not (isinstance(src.pos, int) and src.pos == 0) \
             else src.xs
         src.pos = wrap(src.xs.length)
@@ -49,6 +72,7 @@ def as_slist(interp, src):
 def map_comprehension(interp, node, frame, xs):
     """ListComp / GeneratorExp node with a single generator over a symbolic sequence and no conditions."""
     from .interp import Frame, PyRaise, _comp_info
+    xs = frozen(xs)
     g = node.generators[0]
     st = interp.st
     xs = as_slist(interp, xs)
@@ -63,17 +87,81 @@ def map_comprehension(interp, node, frame, xs):
         return interp2.eval(node.elt, child)
 
     out = SList(xs.length, elem, uid)
-    # purity probe on a generic element
+    # Probe on a generic element: the body must be free of ghost effects.  It may raise: every case
+    # combination of the body is run (local case splits, as in quantifier bodies); the comprehension raises
+    # iff the body raises for some element (the exception of the first such element), else it is the image.
+    from .path import QFrame
     k = st.fresh_int(uid + '.k')
+    n = xs.length
+    rng = z3.And(k >= 0, k < n)
     ntrace = len(st.trace)
-    with st.scope(z3.And(k >= 0, k < xs.length)):
-        if st.check() != z3.unsat:
+    leaves = []
+    st.no_fork += 1
+    n_pc = len(st.pc)
+    n_fresh = len(st.fresh_log)
+    st.solver.push()
+    try:
+        work = [[]]
+        while work:
+            qf = QFrame(work.pop())
+            st.qframes.append(qf)
+            n_sc = len(st.scopes)
+            outcome = ('ok', None)
             try:
-                models.slist_elem(interp, out, k)
-            except PyRaise as e:
-                raise Unsupported('comprehension body may raise (%r): needs an explicit loop contract' % (e.exc,))
+                with st.scope(rng):
+                    if not st.infeasible_site():
+                        try:
+                            elem(interp, k)
+                        except PyRaise as e:
+                            outcome = ('raise', e.exc)
+            finally:
+                del st.scopes[n_sc:]
+                st.qframes.pop()
+            leaves.append(([c for (c, _d) in qf.decisions], outcome))
+            work.extend(qf.pending)
+            if len(leaves) > models.MAX_QUANT_LEAVES:
+                raise Unsupported('too many case combinations in a comprehension body')
+    finally:
+        st.no_fork -= 1
+        st.solver.pop()
+        learned = st.pc[n_pc:]
+        del st.pc[n_pc:]
     if len(st.trace) != ntrace:
         raise Unsupported('comprehension body has ghost effects: needs an explicit loop contract')
+    created = [c for c in st.fresh_log[n_fresh:] if not c.eq(k)]
+    subst = [(c, z3.Function(c.decl().name() + '@', z3.IntSort(), c.sort())(k)) for c in created]
+
+    def at(t, j):
+        if subst:
+            t = z3.substitute(t, *subst)
+        return z3.substitute(t, (k, j))
+
+    for t in learned:
+        t = z3.substitute(t, *subst) if subst else t
+        st._add(z3.ForAll([k], t) if models._mentions(t, k) else t)
+    raising = [(conds, o[1]) for (conds, o) in leaves if o[0] == 'raise']
+    if not raising:
+        return out
+    rc = z3.Or(*[z3.And(*conds) if conds else z3.BoolVal(True) for (conds, _e) in raising])
+    j = st.fresh_int(uid + '.j')
+    if st.choose(2) == 0:
+        # some element raises; k is the first one
+        st.assume(rng)
+        st.assume(at(rc, k))
+        st._add(z3.ForAll([j], z3.Implies(z3.And(0 <= j, j < k), z3.Not(at(rc, j)))))
+        if len(raising) == 1:
+            exc = raising[0][1]
+        else:
+            i = st.choose(len(raising), [at(z3.And(*c) if c else z3.BoolVal(True), k) for (c, _e) in raising])
+            exc = raising[i][1]
+        raise PyRaise(exc)
+    st._add(z3.ForAll([j], z3.Implies(z3.And(0 <= j, j < n), z3.Not(at(rc, j)))))
+
+    def elem_ok(interp2, idx_term):
+        interp2.st.assume(z3.Implies(z3.And(idx_term >= 0, idx_term < n), z3.Not(at(rc, idx_term))))
+        return elem(interp2, idx_term)
+
+    out.elem = elem_ok
     return out
 
 
@@ -81,6 +169,7 @@ def slice_(interp, xs, sl):
     st = interp.st
     if sl.step is not None and sl.step != 1:
         raise Unsupported('slice step on symbolic sequence')
+    xs = frozen(xs)
     n = xs.length
 
     def norm(v, default):
@@ -105,6 +194,11 @@ def slice_(interp, xs, sl):
 def concat(interp, a, b):
     """a + b where at least one is an SList; the other may be a concrete list."""
     st = interp.st
+    a, b = frozen(a), frozen(b)
+    if not isinstance(a, SList):
+        a = list(a)
+    if not isinstance(b, SList):
+        b = list(b)
 
     def length(v):
         return v.length if isinstance(v, SList) else z3.IntVal(len(v))
@@ -123,7 +217,43 @@ def concat(interp, a, b):
             return get(interp2, a, idx_term)
         return get(interp2, b, z3.simplify(idx_term - la))
 
-    return SList(z3.simplify(la + lb), elem, uid)
+    out = SList(z3.simplify(la + lb), elem, uid)
+    out.volatile = True      # the element function case-splits: not memoised at this level
+    out.parts = parts_of(a) + parts_of(b)
+    return out
+
+
+def _grow(interp, xs, ys):
+    """In-place growth at the end (append / extend / +=): the list object keeps its identity, the
+    elements below the old length are unchanged (prefix functions of the list stay valid)."""
+    snap = SList(xs.length, xs.elem, xs.uid)
+    snap.cache = xs.cache
+    snap.volatile = xs.volatile
+    snap.ident = xs.ident
+    if isinstance(ys, SList) and ys is xs:
+        ys = snap
+    old_len = xs.length
+    ys_len = ys.length if isinstance(ys, SList) else z3.IntVal(len(ys))
+
+    def elem(interp2, idx_term):
+        if interp2.st.fork(wrap(idx_term < old_len)):
+            return models.slist_elem(interp2, snap, idx_term)
+        k = z3.simplify(idx_term - old_len)
+        if isinstance(ys, SList):
+            return models.slist_elem(interp2, ys, k)
+        return interp2.getitem(list(ys), wrap(k))
+
+    xs.length = z3.simplify(old_len + ys_len)
+    xs.elem = elem
+    xs.cache = {}
+    xs.volatile = True
+
+
+def parts_of(v):
+    """Structural normal form of a (concatenated) sequence: pieces in order."""
+    if isinstance(v, SList):
+        return list(v.parts) if v.parts is not None else [('base', v)]
+    return [('elem', x) for x in v]
 
 
 def binop(interp, opcls, a, b):
@@ -154,17 +284,51 @@ def contains(interp, xs, x):
 def method(interp, xs, name, args, kwargs):
     from .mlist import MList
     from . import mlist
-    if isinstance(xs, MList) and name in ('append', 'insert', 'pop', 'extend', 'copy', 'clear'):
+    if isinstance(xs, MList) and (name in ('append', 'insert', 'pop', 'extend', 'copy', 'clear')
+                                  or (xs.is_deque and name in ('popleft', 'appendleft'))):
         return mlist.method(interp, xs, name, args, kwargs)
-    if name in ('append', 'insert', 'pop', 'extend', 'clear', 'remove', 'sort', 'reverse'):
+    if name in ('append', 'extend', 'insert') and not xs.immutable:
+        return _mutate_copy_cell(interp, xs, name, args)
+    if name in ('insert', 'pop', 'clear', 'remove', 'sort', 'reverse'):
         raise Unsupported('mutation (%s) of an immutable symbolic sequence: declare it MListOf(...)' % name)
     if name == '__len__':
         return wrap(xs.length)
     if name == 'copy':
-        return xs
+        return copy(xs)
     if name == '__iter__':
         return models.SIter(xs, 0)
+    if name == 'append':
+        (x,) = args
+        _grow(interp, xs, [x])
+        return None
+    if name == 'extend':
+        (ys,) = args
+        if isinstance(ys, (SOpt, SChoice)):
+            ys = interp.resolve(ys)
+        if not isinstance(ys, (SList, list, tuple)):
+            ys = list(interp.iterate(ys))
+        _grow(interp, xs, ys)
+        return None
     raise Unsupported('method %s on symbolic-length sequence' % name)
+
+
+def _mutate_copy_cell(interp, xs, name, args):
+    """append / extend / insert(0, .) on a mutable copy made by list(xs) (elements of any kind, e.g. opaque
+    objects): the cell's contents are replaced by the concatenation; aliases see the same object."""
+    snap = copy(xs, mutable=False)
+    if name == 'append':
+        new = concat(interp, snap, [args[0]])
+    elif name == 'extend':
+        other = args[0]
+        if isinstance(other, (SOpt, SChoice)):
+            other = interp.resolve(other)
+        new = concat(interp, snap, other if isinstance(other, SList) else list(interp.iterate(other)))
+    else:
+        if args[0] != 0 or isinstance(args[0], bool):
+            raise Unsupported('insert into a symbolic-length sequence other than at position 0')
+        new = concat(interp, [args[1]], snap)
+    _replace_contents(xs, new)
+    return None
 
 
 class FilteredSList(SList):
@@ -287,6 +451,17 @@ class SortedSList(SList):
     __slots__ = ('perm_fn', 'inv_fn', 'source')
 
 
+def order_key(interp, v):
+    """what `<` compares: the value itself, or for an opaque object the attribute its interface names
+    in ``sort_key`` (the model of its rich comparison)"""
+    if isinstance(v, Opaque):
+        attr = getattr(v._pv_iface, 'sort_key', None)
+        if attr is None:
+            raise Unsupported('ordering of opaque objects whose interface has no sort_key')
+        return interp.getattr(v, attr)
+    return v
+
+
 def _le_lex(a, b):
     """a <= b for ints or tuples of ints (lexicographic), as a z3 term"""
     if isinstance(a, tuple):
@@ -304,6 +479,44 @@ def _le_lex(a, b):
     return ta <= tb
 
 
+def _elem_patterns(interp, xs, k):
+    """scalar leaf terms of the element of xs at the (bound) index k that mention k: triggers for axioms that
+    are about `the element of xs at k`"""
+    st = interp.st
+    n_pc = len(st.pc)
+    st.no_fork += 1
+    st.solver.push()
+    st.side_conditions.append([])
+    leaves = []
+    try:
+        with st.scope(z3.And(0 <= k, k < xs.length)):
+            if st.check() != z3.unsat:
+                try:
+                    e = models.slist_elem(interp, xs, k)
+                except Exception:
+                    e = None
+
+                def walk(v):
+                    if isinstance(v, (tuple, list)):
+                        for x in v:
+                            walk(x)
+                    elif isinstance(v, (SInt, SBool, SStr)):
+                        leaves.append(v.t)
+
+                walk(e)
+    finally:
+        st.no_fork -= 1
+        st.solver.pop()
+        del st.pc[n_pc:]
+        st.side_conditions.pop()
+    out = []
+    for t in leaves:
+        if z3.is_app(t) and t.num_args() > 0 and not z3.is_and(t) and models._mentions(t, k) \
+                and t.decl().kind() == z3.Z3_OP_UNINTERPRETED:
+            out.append(t)
+    return out[:1]
+
+
 def sorted_(interp, xs):
     st = interp.st
     xs = as_slist(interp, xs)
@@ -313,14 +526,21 @@ def sorted_(interp, xs):
     inv = z3.Function(uid + '.inv', z3.IntSort(), z3.IntSort())
 
     def elem(interp2, k_term):
+        # instance of the bijection fact (kept quantifier-free for the feasibility solver)
+        interp2.st.assume(z3.Implies(z3.And(k_term >= 0, k_term < n), z3.And(perm(k_term) >= 0, perm(k_term) < n)))
         return models.slist_elem(interp2, xs, perm(k_term))
 
     out = SortedSList(n, elem, uid)
     out.perm_fn, out.inv_fn, out.source = perm, inv, xs
     k = st.fresh_int(uid + '.k')
     rng = z3.And(0 <= k, k < n)
-    st._add(z3.ForAll([k], z3.Implies(rng, z3.And(perm(k) >= 0, perm(k) < n, inv(perm(k)) == k,
-                                                    inv(k) >= 0, inv(k) < n, perm(inv(k)) == k))))
+    st._add(z3.ForAll([k], z3.Implies(rng, z3.And(perm(k) >= 0, perm(k) < n, inv(perm(k)) == k)),
+                      patterns=[perm(k)]))
+    # "every element of the source is somewhere in the result": to be instantiated whenever an element of the
+    # source at some index is talked about (the position inv(k) in the result is not a term the goal mentions)
+    src_patterns = [inv(k)] + _elem_patterns(interp, xs, k)
+    st._add(z3.ForAll([k], z3.Implies(rng, z3.And(inv(k) >= 0, inv(k) < n, perm(inv(k)) == k)),
+                      patterns=src_patterns))
     # order (element shapes: ints / tuples of ints / strings)
     j = st.fresh_int(uid + '.j')
     n_pc = len(st.pc)
@@ -330,8 +550,9 @@ def sorted_(interp, xs):
     try:
         with st.scope(z3.And(0 <= j, j < n - 1)):
             if st.check() != z3.unsat:
-                a = models.slist_elem(interp, xs, perm(j))
-                b = models.slist_elem(interp, xs, perm(j + 1))
+                st.assume(z3.And(perm(j) >= 0, perm(j) < n, perm(j + 1) >= 0, perm(j + 1) < n))
+                a = order_key(interp, models.slist_elem(interp, xs, perm(j)))
+                b = order_key(interp, models.slist_elem(interp, xs, perm(j + 1)))
                 order = _le_lex(a, b)
             else:
                 order = z3.BoolVal(True)
